@@ -1,3 +1,89 @@
 import Driver.Common
--- stub driver for C12 (replaced when the property's model is built)
-def main (args : List String) : IO UInt32 := Driver.main' (fun _ => "bad-op") (fun _ _ => "fail bad-op") args
+import Driver.CodecIO
+import GilVerif.Model.C12
+open Driver Driver.CodecIO GilVerif.Codec GilVerif.Model.C12
+
+/-
+  op lines
+    rt  <fmt> <pix> <org> <dev> <w> <h> <hex>      bmp | pnm | targa: observation  <file bytes hex> | <w> <h> <pixels hex>
+    rtx <fmt> <pix> <org> <dev> <w> <h> <hex>      png | tiff…: observation  ext | <w> <h> <pixels hex>   (ExtCodec contract)
+    jpg <pix> <org> <dev> <w> <h> <kind> <hex>     judged only (no model prediction of the pixels)
+  <hex>: channel bytes, row major, semantic channel order (gray1: one byte 00/01 per pixel;
+  16/32-bit channels: big endian bytes)
+-/
+
+def showOutcome {α} (f : PixFmt α) : Outcome α → String
+  | .ub => "ub"
+  | .done file back => hexOf file ++ " | " ++ showRes f back
+
+def model (line : String) : String :=
+  match words line with
+  | ["rt", fmt, pix, _org, _dev, w, h, hex] =>
+    match Fmt.parse fmt, Pix.parse pix, w.toNat?, h.toNat? with
+    | some fmt, some pix, some w, some h =>
+      let bs := parseHex hex
+      if !supported fmt pix then "unsupported" else
+      match fmt, pix with
+      | .bmp, .rgb8 => showOutcome rgb8 (rtBmp3 (imgOfBytes rgb8 w h bs))
+      | .bmp, .rgba8 => showOutcome rgba8 (rtBmp4 (imgOfBytes rgba8 w h bs))
+      | .pnm, .gray8 => showOutcome gray8 (rtPnm5 (imgOfBytes gray8 w h bs))
+      | .pnm, .rgb8 => showOutcome rgb8 (rtPnm6 (imgOfBytes rgb8 w h bs))
+      | .pnm, .gray1 => showOutcome bit8 (rtPnm4 (imgOfBytes bit8 w h bs))
+      | .targa, .rgb8 => showOutcome rgb8 (rtTga3 (imgOfBytes rgb8 w h bs))
+      | .targa, .rgba8 => showOutcome rgba8 (rtTga4 (imgOfBytes rgba8 w h bs))
+      | _, _ => "unsupported"
+    | _, _, _, _ => "bad-op"
+  | ["rtx", fmt, pix, org, _dev, w, h, hex] =>
+    -- ExtCodec contract: the codec returns the rows it was given; what GIL's tiff writer does to them before is modelled
+    let tile : Option Nat := if (fmt.splitOn "-tile16").length > 1 then some 16 else if (fmt.splitOn "-tile32").length > 1 then some 32 else none
+    let hex :=
+      if fmt.startsWith "tiff" ∧ pix = "rgba8" then hexOf (tiffStoreRgba8 tile (w.toNat?.getD 1) (h.toNat?.getD 1) 0 (parseHex hex))
+      else if fmt.startsWith "tiff" ∧ tile.isSome ∧ pix = "rgb8" ∧ org = "alt" then hexOf (reverse3 (parseHex hex))
+      else hex
+    "ext | " ++ w ++ " " ++ h ++ " " ++ hex
+  | _ => "bad-op"
+
+def splitBar (ws : List String) : List String × List String :=
+  let a := ws.takeWhile (· ≠ "|"); (a, (ws.dropWhile (· ≠ "|")).drop 1)
+
+def absDiff (a b : UInt8) : Nat := if a ≤ b then b.toNat - a.toNat else a.toNat - b.toNat
+
+def judge (op obs : String) : String :=
+  let fail (s : String) := "fail " ++ s
+  let o := words obs
+  match words op with
+  | [kind, _fmt, _pix, _org, _dev, w, h, hex] =>
+    if kind ≠ "rt" ∧ kind ≠ "rtx" then fail "bad-op" else
+    match w.toNat?, h.toNat? with
+    | some w, some h =>
+      if o = ["ub"] ∨ (o.head?.map (·.startsWith "ub:")) = some true ∨ (o.head?.map (·.startsWith "crash")) = some true
+         ∨ (o.head?.map (·.startsWith "assert")) = some true then fail "write-or-read-undefined-behaviour" else
+      let (_, back) := splitBar o
+      match back with
+      | [w', h', px] =>
+        match w'.toNat?, h'.toNat? with
+        | some w', some h' =>
+          match specCheck w h (parseHex hex) w' h' (parseHex px) with
+          | none => "ok"
+          | some c => fail c
+        | _, _ => fail ("not-an-image:" ++ (obs.take 40).toString)
+      | ["err:io"] => fail "io-error-on-read"
+      | _ => fail ("no-image:" ++ (obs.take 40).toString)
+    | _, _ => fail "bad-op"
+  | ["jpg", _pix, _org, _dev, w, h, kind, hex, bound] =>
+    match w.toNat?, h.toNat?, bound.toNat? with
+    | some w, some h, some bound =>
+      match o with
+      | [w', h', px] =>
+        if w'.toNat? ≠ some w ∨ h'.toNat? ≠ some h then fail "dimensions" else
+        let src := parseHex hex; let back := parseHex px
+        if src.length ≠ back.length then fail "dimensions" else
+        let d := (src.zip back).foldl (fun m (a, b) => max m (absDiff a b)) 0
+        if kind = "const" ∧ d > 1 then fail "constant-image-within-one-level"
+        else if d > bound then fail "channel-error-bound"
+        else "ok"
+      | _ => fail ("no-image:" ++ (obs.take 40).toString)
+    | _, _, _ => fail "bad-op"
+  | _ => fail "bad-op"
+
+def main (args : List String) : IO UInt32 := Driver.main' model judge args
